@@ -138,6 +138,7 @@ func (e *endpointClient) provide() (string, io.ReadWriteCloser, error) {
 	}
 
 	for {
+		verifPoint("client.beforeConnect", nil)
 		conn, err := e.connect()
 		if err != nil {
 			select {
